@@ -108,17 +108,82 @@ func (m *Machine) sprintf(format Value, args Value) Value {
 	if !ok {
 		return Poison{"fmt with symbolic format"}
 	}
-	var nat []any
+	var argv []Value
 	if args != nil {
-		for _, a := range args.(Slice).V {
-			n, ok := m.toNative(a)
-			if !ok {
-				return Poison{"fmt.Sprintf(" + f + ") with unrenderable argument"}
+		argv = args.(Slice).V
+	}
+	var nat []any
+	allNative := true
+	for _, a := range argv {
+		n, ok := m.toNative(a)
+		if !ok {
+			allNative = false
+			break
+		}
+		nat = append(nat, n)
+	}
+	if allNative {
+		return Str{S: fmt.Sprintf(f, nat...)}
+	}
+	// piecewise: plain verbs only (%s %v %d %q-free), symbolic strings spliced
+	// in byte-wise, symbolic integers through the exact decimal model.
+	var out []T
+	ai := 0
+	for i := 0; i < len(f); i++ {
+		if f[i] != '%' {
+			out = append(out, m.F.Const(8, uint64(f[i])))
+			continue
+		}
+		if i+1 >= len(f) {
+			return Poison{"fmt.Sprintf(" + f + "): trailing %"}
+		}
+		i++
+		verb := f[i]
+		if verb == '%' {
+			out = append(out, m.F.Const(8, '%'))
+			continue
+		}
+		if verb != 's' && verb != 'v' && verb != 'd' {
+			return Poison{"fmt.Sprintf(" + f + ") with symbolic argument and verb %" + string(verb)}
+		}
+		if ai >= len(argv) {
+			return Poison{"fmt.Sprintf(" + f + "): missing argument"}
+		}
+		a := argv[ai]
+		ai++
+		if n, ok := m.toNative(a); ok {
+			for _, c := range []byte(fmt.Sprintf("%"+string(verb), n)) {
+				out = append(out, m.F.Const(8, uint64(c)))
 			}
-			nat = append(nat, n)
+			continue
+		}
+		iv, isI := a.(Iface)
+		if !isI || iv.T == nil {
+			return Poison{"fmt.Sprintf(" + f + ") with unrenderable argument"}
+		}
+		b, isBasic := iv.T.(*types.Basic) // unnamed basic types only: no String()/Error() methods to honour
+		if !isBasic {
+			return Poison{"fmt.Sprintf(" + f + ") with symbolic argument of type " + typeStr(iv.T)}
+		}
+		switch p := iv.V.(type) {
+		case Str:
+			if verb == 'd' {
+				return Poison{"fmt.Sprintf(" + f + "): %d of string"}
+			}
+			out = append(out, m.strBytes(p)...)
+		case T:
+			if b.Info()&types.IsInteger == 0 {
+				return Poison{"fmt.Sprintf(" + f + ") with symbolic " + b.Name()}
+			}
+			out = append(out, m.formatDec(p, b.Info()&types.IsUnsigned == 0)...)
+		default:
+			return Poison{"fmt.Sprintf(" + f + ") with unrenderable argument"}
 		}
 	}
-	return Str{S: fmt.Sprintf(f, nat...)}
+	if ai != len(argv) {
+		return Poison{"fmt.Sprintf(" + f + "): extra arguments"}
+	}
+	return m.mkStr(out)
 }
 
 func (m *Machine) newError(fr *frame, msg Value) Value {
